@@ -17,6 +17,8 @@ PUBLIC API
     string_path_ok(tree) -> bool                    lookup_casstype can parse cass_name(tree) (see C28 note inside)
     codec_cases(max_depth, ...) -> hypothesis strategy of {"tree","value","pv","style","via"} cases
     label_case(ctx, tree, value, pv) -> set of feature labels (also reported through ctx.label)
+    sized_element(etype, size) / vsb_chunks() / vsb_cases(etype) / vsb_build(case)   vectors of variable-width elements
+                                  whose encoding has an exact size (unsigned-vint size prefix boundaries)
 """
 from __future__ import annotations
 
@@ -246,3 +248,71 @@ def label_case(ctx, tree, value, pv):
         if V.contains(tree, k):
             ctx.label("has:" + k)
     return feats
+
+
+# ----------------------------------------------------------------------------------------------------------------
+# variable-width vector elements of an exact encoded size (the unsigned-vint size prefix boundaries)
+# ----------------------------------------------------------------------------------------------------------------
+
+VSB_SIZES = (0, 1, 126, 127, 128, 129, 255, 256, 16383, 16384, 16385, 2 ** 21 - 1, 2 ** 21, 2 ** 21 + 1)
+VSB_ETYPES = ("text", "ascii", "blob", "varint", "decimal", "list", "set", "map", "tuple")
+_VSB_BIG_OK = ("text", "blob", "list")          # 2 MiB elements only where the driver's codec is linear
+_VSB_LAYOUTS = ((1, 0), (2, 0), (2, 1), (3, 0), (3, 1), (3, 2))     # (dimension, position of the sized element)
+
+
+def sized_element(etype, size):
+    """(element type tree, tagged value) whose reference encoding is exactly `size` bytes, or None when the
+    type has no value of that size"""
+    T = V.T
+    if etype == "text":
+        return T("text"), "q" * size
+    if etype == "ascii":
+        return T("ascii"), "a" * size
+    if etype == "blob":
+        return T("blob"), "5a" * size
+    if etype == "varint":
+        return (T("varint"), 1 << (8 * size - 2)) if size >= 1 else None
+    if etype == "decimal":
+        # (python refuses int<->str beyond 4300 digits, for the driver as for everybody: stay below)
+        return (T("decimal"), [1, str(1 << (8 * (size - 4) - 2)), -2]) if 5 <= size <= 1024 else None
+    if etype in ("list", "set"):
+        mk = V.t_list if etype == "list" else V.t_set
+        if size == 4:
+            return mk(T("text")), []
+        return (mk(T("text")), ["e" * (size - 8)]) if size >= 8 else None
+    if etype == "map":
+        if size == 4:
+            return V.t_map(T("int"), T("text")), []
+        return (V.t_map(T("int"), T("text")), [[7, "m" * (size - 16)]]) if size >= 16 else None
+    if etype == "tuple":
+        return (V.t_tuple([T("text")]), ["t" * (size - 4)]) if size >= 4 else None
+    raise ValueError(etype)
+
+
+def vsb_chunks():
+    return list(VSB_ETYPES)
+
+
+def vsb_cases(etype):
+    """plain-data cases {"etype","size","dim","pos","pv"} for one element type"""
+    for size in VSB_SIZES:
+        if sized_element(etype, min(size, 64) if size > 2 ** 20 else size) is None:
+            continue
+        big = size > 2 ** 20
+        if big and etype not in _VSB_BIG_OK:
+            continue
+        if etype == "varint" and size > 2 ** 15:
+            continue
+        if sized_element(etype, size) is None:
+            continue
+        for dim, pos in (((1, 0), (2, 1)) if big else _VSB_LAYOUTS):
+            yield {"etype": etype, "size": size, "dim": dim, "pos": pos, "pv": 4 if (size + dim) % 2 else 5}
+
+
+def vsb_build(case):
+    """-> (vector tree, tagged value) of a case: the sized element at `pos`, small fillers elsewhere"""
+    etype, size, dim, pos = case["etype"], case["size"], case["dim"], case["pos"]
+    sub, el = sized_element(etype, size)
+    filler = sized_element(etype, {"decimal": 6, "map": 17, "list": 9, "set": 9, "tuple": 5}.get(etype, 2))[1]
+    value = [el if i == pos else filler for i in range(dim)]
+    return V.t_vector(sub, dim), value
